@@ -150,6 +150,22 @@ func runC18(c *engine.Case) engine.Result {
 				fail = "ReadMergeString(RenderMerge(d)) applied to a gives " + out.String() + ", not b"
 				return
 			}
+			// the re-read diff renders back to the same patch, and reading after that rendering still works
+			// (state shared between the values the reader hands out would show here)
+			if d3, err := v1.ReadMergeString(text); err == nil {
+				t2, err2 := d3.RenderMerge()
+				p2, perr2 := ref.Parse(t2)
+				res.Transitions += 2
+				if err2 != nil || perr2 != nil || !ref.Equal(p2, pv, ref.List) {
+					fail = fmt.Sprintf("ReadMergeString(text).RenderMerge() = %q (%v), not the patch that was read", t2, err2)
+					return
+				}
+				d4, _ := v1.ReadMergeString(text)
+				if out := impl.PatchV1(c.A, d4); !out.OK || !ref.Equal(out.Val, bV, ref.List) {
+					fail = "after a diff read from the same patch text was rendered, ReadMergeString + Patch gives " + out.String() + ", not b"
+					return
+				}
+			}
 			bucket = "merge/" + hunkShape(nh)
 			return
 		}
